@@ -67,6 +67,10 @@ INFO = {
     "C10-D": ("fast path runs is_ipv4() before lower-casing the host", "fast-path http(s) URL whose last host label is a hex number with upper-case X/A-F"),
     "C17-C": ("ada_get_components returns a pointer to a thread_local snapshot", "a components pointer held across a later call on the same or another handle"),
     "C17-D": ("ada_parse_with_base treats an empty/NULL base as 'no base'", "base of length 0 with an input that parses on its own"),
+    "C05-C": ("FILE_HOST state compares the raw buffer with 'localhost' before host normalisation", "file URL whose host is a non-canonical spelling of localhost (upper case, percent-encoded, full-width)"),
+    "C05-D": ("path_signature_table no longer flags DEL (0x7F) while PATH_PERCENT_ENCODE still contains it", "DEL byte in a non-opaque path with no other character needing encoding in that path"),
+    "C11-C": ("update_base_search scans for the first byte to escape with the plain query set", "aggregator with a fragment, special scheme, set_search value with an apostrophe before the first other escapable byte"),
+    "C11-D": ("opaque path ending in a space skips C0-control escaping", "opaque path with a space directly before '?'/'#' and a control or non-ASCII byte elsewhere in the path"),
     "C19-A": ("parse_scheme slow path no longer clears a port equal to the new scheme's default", "set_protocol with a special scheme spelled with an upper-case letter on a URL whose port is that scheme's default (https://h:80 -> 'HTTP')"),
     "C19-B": ("unicode::to_ascii accepts an empty IDNA result: special URL with an empty host", "special non-file URL whose host consists only of IDNA-ignored code points (U+00AD ...), via parse or host setters"),
     "C18-A": ("AVX-512-only ipv6_structure_plausible(): 'colons > 8' became '> 7'", "-mavx512bw -mavx512vl build, bracketed IPv6 host with exactly 8 colons"),
